@@ -4,7 +4,7 @@ reg(Check(
     "C04", "c04",
     coq_targets=["Stream/C04Check.vo", "Stream/StreamProofs.vo", "Stream/C04CheckProofs.vo", "Props/C04.vo"],
     assumptions=[
-        "at most one write in flight per target between its tree write and the end of its feed callbacks (implied by one writer goroutine per target; without it C04_stream_converges_refuted, known finding KF-C04-1)",
+        "writers of one target are serialised by cache.Target.wmu from the tree write to the end of the feed callbacks (modelled: LWrite takes the mutex, LUnlock releases it; C04_writers_exclusive); the model WITHOUT the mutex refutes convergence (C04_stream_converges_refuted, the regression witness of the fixed finding 7.16)",
         "no subscription path is longer than a cached leaf path it is compatible with (then ctree.Query and the match trie select the same leaves; otherwise the subscriber is streamed updates of a leaf its snapshot did not contain)",
         "subscription target is a concrete target name (target \"*\" walks one target tree after the other and is not modelled); no target removal; ACL allows everything",
         "ctree, coalesce.Queue and match operations are atomic steps (C10, C11, the match RW lock); a blocked gRPC Send is modelled as a step that has not happened yet",
@@ -12,5 +12,5 @@ reg(Check(
     ],
     modelled=["subscribe/subscribe.go: Subscribe (STREAM arm: updates_only sync, addSubscription, goroutine start), processSubscription, sendStreamingResults, sendSubscribeResponse, MakeSubscribeResponse (dup count), Server.Update/UpdateNotification; cache/cache.go: Target.GnmiUpdate single update / single delete arms, gnmiUpdate (stale, same-timestamp, event-driven suppression, new leaf), gnmiRemove, Target.Reset root deletes; coalesce.Queue as abstract coalescing FIFO; match as the compat relation; ctree as path -> leaf handle map with Query/Delete relation `covers`"],
 ),
-    level_text="Theorems in coq/Props/C04.v state the property over a transition system of N writers x M STREAM subscribers x their senders for ALL schedules (invariant: for every subscriber whose walk is done, replaying sent ++ in-flight ++ queue ++ pending announcements gives exactly the matching cache content; corollaries: convergence at quiescence, snapshot before exactly one sync, updates_only sync first, no lost update; refutation without the one-writer-per-target hypothesis). The model is tied to subscribe/cache by (S) forced schedules through the verif hook points, the feed callback and Send under a barrier scheduler, every step validated against the transition system inside Coq, and (A) free-running runs judged at quiescence by the executable specification applied to the implementation's own responses and Query dump.",
+    level_text="Theorems in coq/Props/C04.v state the property over a transition system of N writers x M STREAM subscribers x their senders for ALL schedules (invariant: for every subscriber whose walk is done, replaying sent ++ in-flight ++ queue ++ pending announcements gives exactly the matching cache content; corollaries: convergence at quiescence, snapshot before exactly one sync, updates_only sync first, no lost update; mutual exclusion of the writers of one target through the modelled write mutex; refutation of convergence for the variant without the mutex as regression witness). The model is tied to subscribe/cache by (S) forced schedules through the verif hook points, the feed callback and Send under a barrier scheduler, every step validated against the transition system inside Coq, and (A) free-running runs judged at quiescence by the executable specification applied to the implementation's own responses and Query dump.",
     level_note="Trusted: Coq kernel + vm_compute, the hand-written transition system (validated on the explored schedules), the Go harness and its barrier scheduler. Granularity of atomic steps as listed in the assumptions.")
